@@ -1,7 +1,7 @@
 """C13 runner: for each case write the generated Python source to a real file in a scratch directory,
 import it, ask the real jsonargparse what parameters it offers for the target class
 (get_signature_parameters and ArgumentParser.add_class_arguments) and really instantiate the class with
-several keyword sets. JSON in (stdin): {"cases": [{"source", "target", "universe", "masks"}]}.
+several keyword sets. JSON in (stdin): {"cases": [{"sources": [one or two module texts], "target", "universe", "masks"}]}.
 JSON out (last stdout line): list of observations."""
 import importlib
 import inspect
@@ -106,9 +106,15 @@ def main():
     res = []
     try:
         for n, case in enumerate(payload["cases"]):
+            # one source file, or two: a library module and a module that imports some names from it ({LIB})
+            srcs = case["sources"] if "sources" in case else [case["source"]]
             modname = "jvc13_%d_%d" % (os.getpid(), n)
+            libname = modname + "_lib"
+            if len(srcs) == 2:
+                with open(os.path.join(scratch, libname + ".py"), "w") as f:
+                    f.write(srcs[0])
             with open(os.path.join(scratch, modname + ".py"), "w") as f:
-                f.write(case["source"])
+                f.write(srcs[-1].replace("{LIB}", libname))
             importlib.invalidate_caches()
             mod = importlib.import_module(modname)
             cls = getattr(mod, case["target"])
@@ -142,6 +148,7 @@ def main():
             obs["trials"] = [[s, try_call(cls, s)] for s in trial_sets(obs["offered"], case["universe"], case["masks"])]
             res.append(obs)
             sys.modules.pop(modname, None)
+            sys.modules.pop(libname, None)
     finally:
         shutil.rmtree(scratch, ignore_errors=True)
     print(json.dumps(res))
